@@ -238,6 +238,7 @@ func C07(tier string) int {
 	rep.Assume("goroutines started by the library are joined through the tracked-spawn overlay, so 'no listener ran' is decided, not timed")
 	rep.Set("rule", "base states (BFS depth <= 1 quick / 2 thorough over the kitchen-sink schema) x transaction bodies (every single operation; pairs over a core alphabet) x every failure kind (caller error at every position, rejected operation, unusable key, constraint veto per store and change type, failing pre-commit action, storage write k of N for every k) x routes Update / nested Update / Batch; oracle: error at store call and at Db.Update, byte-identical database, zero listener / commit-action / tx-complete invocations")
 	c07StickyErrors(rep)
+	c07RejectedValues(rep, thorough)
 
 	// base states from a short exploration (files kept)
 	k0 := newKitchen("tx base states", kFeat{orgs: true, places: true, pets: true, rc: true, maxCount: 2})
